@@ -2,7 +2,7 @@
 from __future__ import annotations
 
 from .. import lib
-from ..engine import bases, par, report
+from ..engine import bases, families, par, report
 from ..ref import iban as ri
 from ..ref import reg
 from .c02 import residue_family
@@ -13,7 +13,9 @@ RULE = ("per country x right-context filler: for every position p>=2 and every o
         "carrying x at p (positions 2,3: a member of the residue-complete family with that check "
         "digit) with x replaced by y; for every adjacent pair (p,p+1) and every same-kind (x,y), "
         "x!=y, a reference-valid IBAN carrying xy there, swapped. Oracle: the mutated text is "
-        "rejected. The unmutated text must be accepted first (otherwise counted as skipped). "
+        "rejected. Plus, per filler, 'special' BBANs (dictionary tokens such as XXXX / EUR / NULL, "
+        "near-tokens, runs of 8-18 zeros or nines, eight zeros + digit, at every admitted offset) with "
+        "the typos inside and next to the touched region. The unmutated text must be accepted first (otherwise counted as skipped). "
         "Non-trivial/distinct = distinct mutated texts.")
 DIG, UP = "0123456789", "ABCDEFGHIJKLMNOPQRSTUVWXYZ"
 
@@ -205,6 +207,30 @@ def shard(args):
                     dd, b = got
                     try_case("transposition", country + dd + b, country + dd[0] + y + x + b[1:],
                              f"pos 3,4: {x}{y}->{y}{x} filler {f}")
+        # ---- special bodies: dictionary tokens, near-tokens, long runs of zeros / nines at every
+        # offset the structure admits; typos inside and next to the touched region (successor,
+        # predecessor and the region's own filler character per position; adjacent transpositions)
+        partner_pre, via_object, with_national = None, False, False
+        for label, body, (lo, hi) in families.special_bodies(c, base):
+            dd = ri.check_digits(country, body)
+            valid = country + dd + body
+            part.stat("special_bodies")
+            for q in range(max(0, lo - 1), min(L, hi + 1)):
+                x = body[q]
+                for alpha in kinds(cl[q]):
+                    if x not in alpha:
+                        continue
+                    i = alpha.index(x)
+                    alts = {alpha[(i + 1) % len(alpha)], alpha[i - 1], body[lo] if body[lo] in alpha else alpha[0],
+                            alpha[0]} - {x}
+                    for y in sorted(alts):
+                        try_case("substitution", valid, country + dd + body[:q] + y + body[q + 1:],
+                                 f"pos {q + 4}: {x}->{y} in {label} body")
+                if q + 1 < L and body[q] != body[q + 1] and any(
+                        body[q] in a and body[q + 1] in a for a in kinds(cl[q]) if a in kinds(cl[q + 1])):
+                    try_case("transposition", valid,
+                             country + dd + body[:q] + body[q + 1] + body[q] + body[q + 2:],
+                             f"pos {q + 4},{q + 5} swapped in {label} body")
         part.sample({"country": country, "filler": f, "valid": country + ri.check_digits(country, base) + base,
                      "example_mutation": country + ri.check_digits(country, base) + base[:-1]
                      + ("1" if base[-1] != "1" else "2")})
